@@ -81,10 +81,11 @@ ALPHABET = {
                     "2D: 3 x-axes x 3 y-axes; 3D: 4 geometries (thorough: 8); each x {const,lin,smooth,hash} x no_boundary_error",
 }
 BOUND = {
-    "quick": "hist: all sequences of length <= 3 (1D: every role point; 2D: 26 points; 3D: 16 points) x 2 functions x nbe x 4 bounds; "
-             "perm: 1D all orders of the cells, 2D all injective 4-sequences over 12 cells, 3D all injective 4-sequences over a 2x2x2 block; "
+    "quick": "hist: all sequences of length <= 3 (1D: every role point of the 4- and 3-cell areas, 13 points of the 8-cell area; 2D: 26 points; "
+             "3D: 16 points) x 2 functions x nbe x 4 bounds; "
+             "perm: 1D all injective sequences of <= 4 cells (4!, 3!, 8*7*6*5), 2D all injective 4-sequences over 12 cells, 3D all injective 4-sequences over a 2x2x2 block; "
              "grid: full geometry lattice, forward and reverse sweeps",
-    "thorough": "hist: 1D all sequences of length <= 4; 2D length <= 3 over 36 points and <= 4 over 16; 3D length <= 3 over 30 points and "
+    "thorough": "hist: 1D all sequences of length <= 4; perm 1D injective 5-sequences; 2D length <= 3 over 36 points and <= 4 over 16; 3D length <= 3 over 30 points and "
                 "<= 4 over 8; x 5 bounds; perm: 2D injective 5-sequences, 3D injective 5-sequences over the block and 3-sequences over all "
                 "27 cells; grid: extended 3D lattice",
 }
@@ -109,7 +110,7 @@ REQUIRED_CLASSES = [
     "ref:bounds:wide", "ref:bounds:point", "ref:bounds:narrow", "ref:geom:near", "ref:geom:far-offset", "ref:single-cell-axis",
     "grid:fwd-vs-rev",
 ]
-BUDGET_S = {"quick": 240, "thorough": 1500}
+BUDGET_S = {"quick": 300, "thorough": 2400}   # ~175 / ~3250 CPU-seconds: 11 s / 3.5 min on 16 idle cores
 CHUNK = 4
 
 _S = {}
@@ -543,7 +544,10 @@ def _grid_geoms(tier):
           [(1000.0, 1001.0, 0.3), (-0.3, 0.8, 0.3), (2.0, 3.5, 0.5)],
           [(-2.5, -2.0, 0.25), (1.7, 2.8, 0.7), (-0.3, 0.8, 0.3)]]
     if tier == "thorough":
-        g3 += [[(0.0, 1.0, 0.25), (-0.3, 0.8, 0.25), (2.0, 3.5, 0.3)],
+        # (6x6x7 intervals; z centred on the origin: with z in (2, 3.5) the raw-coordinate polynomial of the implementation
+        #  already loses 6e-7 at the nodes of the hash function against 8e-8 for evaluation in normalised coordinates -
+        #  the milder end of the registered far-offset finding; the lattice keeps to the two clear-cut classes)
+        g3 += [[(0.0, 1.0, 0.25), (-0.3, 0.8, 0.25), (-0.75, 0.75, 0.3)],
                [(0.0, 0.5, 1.5), (0.0, 0.5, 1.5), (0.0, 0.5, 1.5)],
                [(1.7, 2.8, 0.3), (1000.0, 1001.0, 0.5), (2.0, 3.5, 0.7)],
                [(-0.3, 0.8, 0.1), (0.0, 1.0, 0.5), (2.0, 3.5, 0.5)]]
